@@ -504,6 +504,154 @@ fn test_tzif(c: &TzifCase, cx: &mut Cx) -> CaseResult {
     })
 }
 
+
+// --- the Android concatenated tzdata reader -----------------------------------------------------------
+
+#[derive(Serialize, Deserialize, Debug, Clone)]
+enum CMut {
+    /// header word 0..3 (index offset, data offset, final offset) := value
+    Header(u8, u32),
+    /// index entry e, field 0..3 (start, length, raw offset) := value
+    Entry(u8, u8, u32),
+    /// overwrite one byte of the name of index entry e
+    NameByte(u8, u8, u8),
+    Truncate(u16),
+    SetByte(u16, u8),
+    Append(u8, u8),
+    /// remove a slice (start, len) anywhere
+    Cut(u16, u8),
+}
+
+#[derive(Serialize, Deserialize, Debug, Clone)]
+struct ConcatCase {
+    nzones: u8,
+    muts: Vec<CMut>,
+}
+
+const CONCAT_NAMES: [&str; 5] = ["Alpha/One", "Beta", "Mixed/CaSe_Zone", "Zeta", "aLPHA/two"];
+
+fn concat_base(n: usize) -> Vec<u8> {
+    let zones: Vec<(String, Vec<u8>)> = (0..n.clamp(1, 5)).map(|i| (CONCAT_NAMES[i].to_string(), crate::tzfiles::fixed_tzif(&format!("Z{}X", i + 1), (i as i32 + 1) * 1800))).collect();
+    crate::tzfiles::concatenated("2024a", &zones)
+}
+
+fn apply_concat(mut b: Vec<u8>, m: &CMut, n: usize) -> Vec<u8> {
+    match *m {
+        CMut::Header(w, v) => {
+            let at = 12 + 4 * (w as usize % 3);
+            if b.len() >= at + 4 {
+                b[at..at + 4].copy_from_slice(&v.to_be_bytes());
+            }
+        }
+        CMut::Entry(e, f, v) => {
+            let at = 24 + 52 * (e as usize % n.max(1)) + 40 + 4 * (f as usize % 3);
+            if b.len() >= at + 4 {
+                b[at..at + 4].copy_from_slice(&v.to_be_bytes());
+            }
+        }
+        CMut::NameByte(e, k, v) => {
+            let at = 24 + 52 * (e as usize % n.max(1)) + (k as usize % 40);
+            if at < b.len() {
+                b[at] = v;
+            }
+        }
+        CMut::Truncate(sel) => {
+            let to = pos(sel, b.len() + 1).min(b.len());
+            b.truncate(to);
+        }
+        CMut::SetByte(sel, v) => {
+            if !b.is_empty() {
+                let at = pos(sel, b.len()).min(b.len() - 1);
+                b[at] = v;
+            }
+        }
+        CMut::Append(k, v) => b.extend(std::iter::repeat(v).take(k as usize)),
+        CMut::Cut(sel, len) => {
+            if !b.is_empty() {
+                let at = pos(sel, b.len()).min(b.len() - 1);
+                let end = (at + len as usize).min(b.len());
+                b.drain(at..end);
+            }
+        }
+    }
+    b
+}
+
+fn strat_concat() -> BoxedStrategy<ConcatCase> {
+    // values that matter for offsets and lengths: around the real layout (24-byte header, 52-byte
+    // entries), small, huge
+    let word = prop_oneof![
+        3 => (0u32..600),
+        2 => proptest::sample::select(vec![0u32, 1, 11, 12, 23, 24, 25, 51, 52, 53, 75, 76, 77, 103, 104, 128, 129, 180, 232, 284, u32::MAX, u32::MAX - 1, 1 << 31, (1 << 31) - 1, 0x0100_0000, 65535, 65536]),
+        1 => any::<u32>(),
+    ];
+    let m = prop_oneof![
+        4 => (0u8..3, word.clone()).prop_map(|(w, v)| CMut::Header(w, v)),
+        4 => (any::<u8>(), 0u8..3, word).prop_map(|(e, f, v)| CMut::Entry(e, f, v)),
+        2 => (any::<u8>(), any::<u8>(), any::<u8>()).prop_map(|(e, k, v)| CMut::NameByte(e, k, v)),
+        2 => any::<u16>().prop_map(CMut::Truncate),
+        2 => (any::<u16>(), any::<u8>()).prop_map(|(p, v)| CMut::SetByte(p, v)),
+        1 => (any::<u8>(), any::<u8>()).prop_map(|(k, v)| CMut::Append(k, v)),
+        1 => (any::<u16>(), any::<u8>()).prop_map(|(p, l)| CMut::Cut(p, l)),
+    ];
+    (1u8..=5, proptest::collection::vec(m, 0..4)).prop_map(|(nzones, muts)| ConcatCase { nzones, muts }).boxed()
+}
+
+static CONCAT_COUNTER: std::sync::atomic::AtomicU64 = std::sync::atomic::AtomicU64::new(0);
+
+fn test_concat(c: &ConcatCase, cx: &mut Cx) -> CaseResult {
+    use jiff::tz::TimeZoneDatabase;
+    let n = c.nzones as usize;
+    let mut data = concat_base(n);
+    for m in &c.muts {
+        data = apply_concat(data, m, n);
+    }
+    cx.nt_if(!c.muts.is_empty());
+    thread_local! {
+        static DIR: std::path::PathBuf = {
+            let d = std::path::PathBuf::from(format!("{}/.work/c17-concat/{}-{}", VERIF_DIR, std::process::id(), CONCAT_COUNTER.fetch_add(1, std::sync::atomic::Ordering::Relaxed)));
+            let _ = std::fs::create_dir_all(&d);
+            d
+        };
+    }
+    let path = DIR.with(|d| d.join("tzdata"));
+    std::fs::write(&path, &data).map_err(|e| Failure::new("HARNESS-PANIC", format!("cannot write {}: {e}", path.display())))?;
+    // Ok or Err, never a panic (a panic is caught by the engine and reported with its location);
+    // whatever is accepted must answer lookups without panicking, and a zone it hands out must be
+    // a usable zone
+    match TimeZoneDatabase::from_concatenated_path(&path) {
+        Err(_) => cx.class("concat: rejected when opened"),
+        Ok(db) => {
+            cx.class("concat: opened");
+            let names: Vec<String> = db.available().take(8).map(|n| n.as_str().to_string()).collect();
+            let mut got_zone = false;
+            for q in names.iter().map(|s| s.as_str()).chain(CONCAT_NAMES.iter().copied()).chain(["zeta", "No/Such", ""]) {
+                if let Ok(tz) = db.get(q) {
+                    got_zone = true;
+                    targets::tz_battery("concat", &tz, &[0, -1_000_000_000, 1_700_000_000]).map_err(|e| Failure::new("concat-zone-unusable", format!("get({q:?}): {e}")))?;
+                }
+            }
+            cx.class_if(got_zone, "concat: handed out a zone");
+            if c.muts.is_empty() {
+                ensure!(names.len() == n.min(8), "concat-valid-file-not-listed", "a well-formed file with {n} zones lists {names:?}");
+                for i in 0..n {
+                    let tz = db.get(CONCAT_NAMES[i]).map_err(|e| Failure::new("concat-valid-file-lookup", format!("{}: {e}", CONCAT_NAMES[i])))?;
+                    ensure!(tz.to_offset(jiff::Timestamp::UNIX_EPOCH).seconds() == (i as i32 + 1) * 1800, "concat-valid-file-wrong-zone", "{} answers like another zone", CONCAT_NAMES[i]);
+                }
+            }
+        }
+    }
+    Ok(())
+}
+
+fn run_concat_cleanup(_rec: &Recorder, _check: &'static str) {
+    let _ = std::fs::remove_dir_all(format!("{}/.work/c17-concat", VERIF_DIR));
+}
+
+fn replay_nothing(_: serde_json::Value) -> CaseResult {
+    Ok(())
+}
+
 // --- time proportionality (coarse scaling test) ---------------------------------------------------
 
 fn run_scaling(rec: &Recorder, check: &'static str) {
@@ -561,12 +709,16 @@ pub fn property() -> Property {
             Box::new(Prop { name: "c17.text", quick: 1_500_000, thorough: 60_000_000, strategy: strat_text, test: test_text }),
             Box::new(Prop { name: "c17.strtime_spec", quick: 600_000, thorough: 20_000_000, strategy: strat_spec_case, test: test_spec_case }),
             Box::new(Prop { name: "c17.tzif", quick: 200_000, thorough: 8_000_000, strategy: strat_tzif, test: test_tzif }),
+            Box::new(Prop { name: "c17.concat", quick: 150_000, thorough: 6_000_000, strategy: strat_concat, test: test_concat }),
+            Box::new(Sweep { name: "c17.concat_cleanup", run: run_concat_cleanup, replay: replay_nothing }),
             Box::new(Sweep { name: "c17.scaling", run: run_scaling, replay: replay_scaling }),
         ],
         floors: |rec| {
             rec.floor("c17.text:accepted-by-a-parser", "c17.text:cases", 0.15);
             rec.floor("c17.text:rejected-by-all", "c17.text:cases", 0.15);
             rec.floor("c17.tzif:accepted", "c17.tzif:cases", 0.10);
+            rec.floor("c17.concat:concat: opened", "c17.concat:cases", 0.10);
+            rec.floor("c17.concat:concat: rejected when opened", "c17.concat:cases", 0.05);
         },
     }
 }
